@@ -10,3 +10,4 @@ INVARIANT OptimalIsFirst
 INVARIANT GreedyTakesMax
 INVARIANT OptValueEquivariant
 INVARIANT OptimalSeqAgrees
+INVARIANT MaxSeqAgrees
